@@ -32,10 +32,12 @@ ASSUMPTIONS = ["identity hash", "chunk identifiers are identifiers of grid posit
 EXPLANATION = ("k chunk identifiers are symbolic 64-bit terms (arbitrary distinct grid positions), payload bytes symbolic; the "
                "real writer runs and closes; a reader written from sharded.md then locates each chunk (shard file name, "
                "minishard slot, delta-decoded index) and the solver proves payload equality and the structural rules "
-               "for every placement on the path.")
+               "for every placement on the path. Harness 'append_step' runs one MiniShard.append from an arbitrary state "
+               "(previous identifier, new identifier and offset symbolic over all 64-bit values): the index gains exactly the "
+               "identifier delta, the offset entry and the size as three uint64 values.")
 BOUNDS = {"quick": "grids up to 3x4x2 (incl. non powers of two and single-chunk axes); (minishard,shard,preshift) from {0,1,2}^3 "
                    "(subset), (2,2,0) on 3x4x2, (0,0,64), (1,30,40), (0,70,0), (1,4,0), (0,8,1), (1,5,0); raw and gzip index/data encodings; k<=2 symbolic "
-                   "chunks with payloads of 0..2 bytes; full grids in raster and reversed order; both buffering strategies",
+                   "chunks with payloads of 0..2 bytes; full grids in raster and reversed order; both buffering strategies; one append with 64-bit symbolic identifiers",
           "thorough": "k=3 symbolic chunks, all 27 bit triples on two grids"}
 OUTSIDE = ["real zlib streams", "minishard_bits > 12 (the shard index alone would need gigabytes)", "grids beyond 3x4x2"]
 
